@@ -256,15 +256,18 @@ func didRules(p *Prog, r *Report, clause string, want func(string) bool) *didMod
 		h.key, h.val = h.setT.Args[2], h.setT.Args[3]
 		keyF, okKey := msgField(h.key)
 		em("bind", okKey, kp("ORIGIN", hn+"#key=msg-field"), "the entry is written under an identifier taken from the message", site, "key = msg."+keyF, "key = "+h.key.String())
-		// the entry read under the same key
-		for _, cs := range callSites(fn) {
-			if cs.Callee != nil && m.getters[resolveBound(cs.Callee)] {
-				if c, ok := cs.Instr.(*ssa.Call); ok {
-					t := h.o.Of(c)
-					if t.Op == "call" && len(t.Args) == 3 && t.Args[2].Eq(h.key) && h.o.dominates(c, h.set) {
-						h.get = t
-					}
-				}
+		// the entry read under the same key — directly, or inside a transparent helper on every one of its success paths
+		for _, vc := range h.o.VirtualCalls() {
+			if vc.Callee == nil || !m.getters[resolveBound(vc.Callee)] || vc.Term == nil || !vc.Always {
+				continue
+			}
+			rootI, ok := vc.Root.(ssa.Instruction)
+			if !ok {
+				continue
+			}
+			t := vc.Term
+			if t.Op == "call" && len(t.Args) == 3 && t.Args[2].Eq(h.key) && h.o.dominates(rootI, h.set) {
+				h.get = t
 			}
 		}
 		if h.get == nil {
@@ -553,10 +556,7 @@ func checkDidBinding(p *Prog, r *Report, kp func(string, string) string, h *didH
 	vf := NewFacts(p, vb, vo)
 	all := true
 	n := 0
-	for _, ret := range returnsOf(vb) {
-		if !isNilConst(ret.Results[0]) {
-			continue
-		}
+	for _, ret := range successReturns(vb) { // nil returns and pass-through returns (`return helper(...)`) alike
 		n++
 		if _, ok := vf.DominatingFact(ret, true, match); !ok {
 			all = false
